@@ -49,7 +49,10 @@ def table_texts():
         ("cast-plus", "{ RdV = (int16_t)+RsV; }"), ("cast-cast", "{ RdV = (int64_t)(int8_t)RsV; }"), ("unary-cast", "{ RdV = -(int8_t)RsV; }"),
         ("paren-minus", "{ RdV = (RsV)-RtV; }"), ("paren-minus-unary", "{ RdV = (RsV) - -RtV; }"), ("minus-minus", "{ RdV = RsV - -RtV; }"),
         ("plus-minus", "{ RdV = RsV + -RtV; }"), ("not-not", "{ RdV = !!RsV; }"), ("neg-tilde", "{ RdV = -~RsV; }"),
-        ("cast-paren", "{ RdV = (int32_t)(RsV)-RtV; }"), ("cast-unsigned-int", "{ RdV = (unsigned int)RsV + 1; }"),
+        ("cast-paren", "{ RdV = (int32_t)(RsV)-RtV; }"),
+        ("minus-cast-unary", "{ RdV = RsV - (int32_t)-RtV; }"), ("paren-minus-cast-unary", "{ RdV = (RsV) - (int32_t)-RtV; }"),
+        ("plus-cast-plus", "{ RdV = RsV + (int8_t)+RtV; }"), ("mul-cast-unary", "{ RdV = RsV * (int32_t)-RtV; }"),
+        ("minus-cast-not", "{ RdV = RsV - (int32_t)~RtV; }"), ("cast-unsigned-int", "{ RdV = (unsigned int)RsV + 1; }"),
         ("cast-int", "{ RdV = (int)RsV * 2; }"), ("sizeof", "{ RdV = sizeof(RsV) + 1; }"),
         ("and-andand", "{ RdV = RsV & RtV && RuV; }"), ("andand-and", "{ RdV = RsV && RtV & RuV; }"),
         ("and-andand-tight", "{ RdV = RsV&RtV&&RuV; }"), ("andand-tight", "{ RdV = RsV&&RtV; }"), ("and-tight-paren", "{ RdV = (RsV)&(RtV); }"),
@@ -83,6 +86,9 @@ def classify_diff(text, d):
         return None
     if "&" in d.replace("&&", ""):
         return "ampersand-ptr-terminal"
+    import re as _re
+    if _re.search(r"\('id', '(u?int\d+_t|size\d[su]_t|int|unsigned)'\)", d):
+        return "type-name-parsed-as-identifier"
     if "'id' vs 'call'" in d:
         return "argumentless-call"
     return "structure"
